@@ -49,6 +49,7 @@ def _rules():
             lambda R, c, rid: preds.rule(R, c, rid, ["idmap_contains", "block_is_deleted", "slice_is_deleted"]),
             lambda R, c, rid: c16.rule_h(R, c, rid),
             lambda R, c, rid: c16.rule_f(R, c, rid),
+            lambda R, c, rid: c16.rule_j(R, c, rid),
         ],
         "slice": [
             lambda R, c, rid: c13.rule_c(R, c, rid),
@@ -73,7 +74,7 @@ def _rules():
             lambda R, c, rid: preds.rule(R, c, rid, ["map_contains_key"]),
         ],
         "block-wire": [
-            lambda R, c, rid: wire_rules._wire(R, c, rid, ["Block", "Update"]),
+            lambda R, c, rid: wire_rules._wire(R, c, rid, ["Block", "Update", "IdSet", "IdRanges", "Range"]),
         ],
         "merge": [
             lambda R, c, rid: c08.rule_e(R, c, rid),
@@ -107,7 +108,7 @@ DEPENDS = {
     "C02": ["stash-deletes", "lookup", "export", "block-wire", "merge", "state-vector"],
     "C03": ["splice", "conflict", "lookup", "content", "map-api", "text-units"],
     "C04": ["splice", "dependency", "stash-deletes", "lookup", "content", "block-iter"],
-    "C05": ["conflict", "squash", "splice", "dependency", "map-api", "merge"],
+    "C05": ["conflict", "squash", "splice", "dependency", "map-api", "merge", "delete-set"],
     "C06": ["dependency", "delete-set", "slice", "partial", "lookup", "content", "merge", "state-vector"],
     "C07": ["delete-set", "slice", "partial", "export", "liveness", "block-wire", "state-vector"],
     "C08": ["slice", "delete-set", "partial", "block-wire"],
